@@ -657,6 +657,14 @@ static Cfg drawCfg(Rng& r, bool th, long icase)
   else if (f < 92) drawPgs(r, c, th, false);
   else if (f < 98) drawPgs(r, c, th, true);
   else { c.family = F_SEED; c.sig = "seed"; }
+  // one non-conditional monovariate turning-bands case in three simulates a POWER (intrinsic) structure: its 1-D process is
+  // initialised from the exponent AND the scale (CalcSimuTurningBands::_power1DInit)
+  if (c.family == F_TUB && !c.cond && c.model.nvar == 1 && icase % 3 == 1)
+  {
+    c.model.covs[0].type  = "POWER";
+    c.model.covs[0].param = 0.4 + 0.1 * (double)(icase % 15);
+    c.sig += ":power";
+  }
   // one case in four runs with the new-style generator (decided on the case index: the draws above are unchanged)
   if (c.family != F_SEED && icase % 4 == 2)
   {
@@ -957,6 +965,24 @@ static void reproOracles(Rng& r, Ctx& c, const Cfg& cfg, const Out& A, const std
   Out B = execute(cfg, cfg.seed, cfg.gseed);
   c.check("repro-b2b", K(cfg, "repro:back-to-back" + cls), A.sameBits(B), A.sameBits(B) ? 0 : 1, 0, A.sameBits(B) ? "" : diffDetail(A, B));
   perturb(r.next());
+  if (cfg.family == F_TUB)
+  {
+    // unrelated use of the SAME simulator on sibling models: other third parameters, then the same parameters at another
+    // scale (what a cache keyed on part of the model would confuse with the configuration under test)
+    Cfg s1 = cfg, s2 = cfg;
+    for (auto& cv : s1.model.covs)
+    {
+      if (cv.type == "POWER") cv.param = cv.param < 1. ? cv.param + 0.7 : cv.param - 0.6;
+      else if (cv.type == "STABLE") cv.param = cv.param < 1.2 ? cv.param + 0.5 : cv.param - 0.5;
+      else if (cv.type == "MATERN") cv.param = cv.param == 0.5 ? 1.5 : 0.5;
+      else if (cv.type == "BESSELJ") cv.param = cv.param + 0.5;
+    }
+    for (auto& cv : s2.model.covs)
+      for (auto& rg : cv.ranges) rg *= 3.7;
+    (void)execute(s1, cfg.seed > 0 ? cfg.seed + 11 : cfg.seed, cfg.gseed > 0 ? cfg.gseed + 11 : cfg.gseed);
+    (void)execute(s2, cfg.seed > 0 ? cfg.seed + 12 : cfg.seed, cfg.gseed > 0 ? cfg.gseed + 12 : cfg.gseed);
+    c.probe("repro:after-sibling-simulations");
+  }
   Out C = execute(cfg, cfg.seed, cfg.gseed);
   c.check("repro-perturbed", K(cfg, "repro:after-unrelated-random-calls" + cls), A.sameBits(C), A.sameBits(C) ? 0 : 1, 0,
           A.sameBits(C) ? "" : diffDetail(A, C));
